@@ -48,13 +48,13 @@ META = {
              '[[tp,k-tp],[k-tp,n-2k+tp]] with n in 1.4e5..1e6, k up to 4e4 (perfect, empty, random tp) passed to '
              'the three scores, and in thorough cm + scores on the web2 trace (139 907 points, k = 2e4..4e4); '
              'distinct = digest(curve, knees, expected, t); non-trivial = cm call with 0 < TP < |E|'),
-    'require': {'cm:tp': 7000, 'cm:identity': 7000,
-                'err:mae': 5500, 'err:mse': 11000, 'err:rmse': 5500, 'err:rmspe': 5500,
-                'err:sqrt': 5500, 'err:nonneg': 30000, 'err:zero': 7000,
-                'score:accuracy': 7000, 'score:f1': 7000, 'score:mcc': 7000, 'score:perfect': 5000,
-                'large-count': 800, 'large-perfect': 150,
-                'cm-tie': 1500, 'dup-claim': 1200, 'strategy-unequal': 15000,
-                'nontrivial': 1500},
+    'require': {'cm:tp': 16000, 'cm:identity': 16000,
+                'err:mae': 12000, 'err:mse': 24000, 'err:rmse': 12000, 'err:rmspe': 12000,
+                'err:sqrt': 13000, 'err:nonneg': 65000, 'err:zero': 16000,
+                'score:accuracy': 18000, 'score:f1': 18000, 'score:mcc': 18000, 'score:perfect': 14000,
+                'large-count': 4800, 'large-perfect': 1400,
+                'cm-tie': 7000, 'cm-tie-pos': 800, 'dup-claim': 5000, 'nearest-tie': 1800,
+                'strategy-unequal': 21000, 'nontrivial': 7000},
     'scale': {'quick': 1, 'thorough': 20},
     'quick_cases': 10000, 'thorough_cases': 200000,
     'quick_matrices': 4800, 'thorough_matrices': 96000,
@@ -147,7 +147,7 @@ def cm_model(P, K, E, t):
     kx = np.asarray(x[K], dtype=float)
     claimed = np.zeros(len(K), dtype=bool)
     tp = 0
-    info = {'ties': 0, 'dup': 0, 'nearest_ties': 0}
+    info = {'ties': 0, 'ties_pos': 0, 'dup': 0, 'nearest_ties': 0}
     range_exact = None
     tq = None
     for px in np.asarray(E[:, 0], dtype=float):
@@ -176,6 +176,7 @@ def cm_model(P, K, E, t):
                 return None, 'threshold-band', info
             if qf == t:
                 info['ties'] += 1
+                info['ties_pos'] += int(t > 0.0)
         if dec:
             if not claimed[j]:
                 claimed[j] = True
@@ -232,6 +233,8 @@ def post_cm(ctx, original, args, kwargs, result):
               expected_x=E[:64, 0], info=info)
     if info['ties']:
         ctx.ok('cm-tie', info['ties'])
+    if info['ties_pos']:
+        ctx.ok('cm-tie-pos', info['ties_pos'])
     if info['dup']:
         ctx.ok('dup-claim')
     if info['nearest_ties']:
